@@ -8,7 +8,7 @@ from .common import tlc, log, workdir, ToolError
 
 # quantities with three and four decimals: every front-end shows quantities exactly (C17)
 G1 = ('2020-06-01 BUY AAA 10.5 @ 5\n2020-07-01 SELL AAA 4.375 @ 8 FEES 1\n2020-07-15 BUY AAA 2.125 @ 6\n'
-      '2021-06-10 DIVIDEND AAA TOTAL 3 TAX 1\n2021-09-01 SELL AAA 3.3333 @ 4\n2021-09-01 BUY BBB 5 @ 2.125\n2021-09-01 SELL BBB 1.5 @ 2.5\n2021-10-05 SELL BBB 3.5 @ 2.25\n'
+      '2021-06-10 DIVIDEND AAA TOTAL 3 TAX 1\n2021-09-01 SELL AAA 3.3333 @ 4\n2021-09-01 BUY BBB 5 @ 2.125\n2021-09-01 SELL BBB 1 @ 2.5\n2021-10-05 SELL BBB 4 @ 2.25\n'
       # a capital return months after every AAA sale: it still moves the cost of the lots those sales drew on
       '2022-03-01 CAPRETURN AAA 4 TOTAL 2.5 FEES 0\n'
       # a sale with a repurchase exactly 30 days later (1 June -> 1 July): the last day of the 30-day rule
@@ -19,7 +19,8 @@ NOEXEMPT = '2030-06-01 BUY AAA 10 @ 5\n2030-07-01 SELL AAA 4 @ 8\n'
 OVERFLOW = '2020-06-01 BUY AAA 1 @ 79228162514264337593543950335 FEES 1\n'
 # a ledger with a disposal in a tax year that has no configured exemption: a single-year report of another year is still possible
 G2 = '2024-05-01 BUY VOD 100 @ 1\n2024-09-10 SELL VOD 10 @ 2\n2026-09-10 SELL VOD 5 @ 2\n2012-05-01 BUY OLD 10 @ 1\n2012-06-01 SELL OLD 5 @ 2\n'
-# two securities are sold on 2021-09-01: each must be explainable on its own (C09)
+# two securities are sold on 2021-09-01: each must be explainable on its own (C09); the BBB same-day leg costs exactly
+# 2.125 -- a half-penny midpoint after an even digit (half-even rounding would show 2.12, every front-end shows 2.13 or 2.125)
 DISPOSALS = [('2020-07-01', 'AAA'), ('2021-09-01', 'AAA'), ('2021-09-01', 'BBB'), ('2021-10-05', 'bbb'), ('2022-06-01', 'CCC')]
 
 
@@ -559,6 +560,20 @@ def _mcp_check(tier, seed):
                 findings.append({'prop': 'C20', 'kind': 'malformed_accepted', 'case': 0, 'input': json.dumps(wcls[k])[:3000], 'data': {'class': k},
                                  'detail': f'request {k} carries malformed transactions but was answered with a result'})
         log(f'[mcp] {len(script) - 1} malformed-JSON requests with the error at every byte alignment of a multi-byte line')
+        # ---- a burst: 150 explain_matching calls in flight at once (plus a calculation and a rate look-up): every one answered
+        script = [('send', f'explain_{i % len(DISPOSALS)}') for i in range(150)] + [('send', 'calc_all'), ('send', 'fx')]
+        ev, resp = play(root, 'burst', script, cls, patience=90)
+        sent = {e['id']: e['class'] for e in ev if e['event'] == 'Send'}
+        missing = [rid for rid in sent if rid not in resp]
+        if missing:
+            findings.append({'prop': 'C20', 'kind': 'unanswered', 'case': 0, 'input': f'{len(script)} pipelined requests', 'data': {'class': 'burst'},
+                             'detail': f'{len(missing)} of {len(script)} requests sent in one burst (150 explain_matching, calculate_report, get_fx_rate) were never answered'})
+        else:
+            wrong = [sent[rid] for rid in sent if sent[rid] in expect and digest_of(resp[rid])[0] != expect[sent[rid]]['kind']]
+            if wrong:
+                findings.append({'prop': 'C20', 'kind': 'burst_answers', 'case': 0, 'input': f'{len(script)} pipelined requests', 'data': {},
+                                 'detail': f'in a burst of {len(script)} requests, {len(wrong)} were answered with the wrong kind of response: {sorted(set(wrong))[:5]}'})
+        log(f'[mcp] burst of {len(script)} pipelined requests: {len(script) - len(missing)} answered')
         # ---- known: a panicking calculation is never answered
         ev, resp = play(root, 'ovf', [('send', 'overflow'), ('send', 'calc_all')], cls, patience=12)
         if 2 not in resp:
